@@ -84,6 +84,7 @@ P = {
   technique="origin (ownership) dataflow on pos_to_linecol sites"),
 "C07": dict(
   decided={
+    "C07.d": "the tool-support bookkeeping (reads _tx_position/_tx_filename of the target) is not reachable, within one iteration, from the statement that binds a builtin",
     "C07.a": "PlainName.__call__ cardinality table: 0 -> None, 1 -> the object, >=2 -> TextXSemanticError; selector conjoins name equality and textx_isinstance; search root is get_model(obj)",
     "C07.b": "resolve_one_step: builtins consulted only after the provider returned None, accepted only under textx_isinstance; still None -> UNKNOWN_OBJ_ERROR; Postponed never stored",
     "C03.c": "(shared with C03) the type-conformance test recurses over inheritors with a cycle guard",
@@ -299,6 +300,7 @@ P = {
   technique="PEG extraction from two notations + normal form + co-inductive structural diff"),
 "C25": dict(
   decided={
+    "C25.h": "the 'redefined imported rule' error for user classes depends only on the user class being found and its rule name having been used before",
     "C25.a": "unqualified lookup: current namespace first, then imported namespaces in list order, first hit",
     "C25.b": "import once; namespace registered before the imported file is loaded (cycle cut)",
     "C25.c": "imported namespaces are appended in import order",
@@ -323,6 +325,7 @@ P = {
   technique="key-normalisation dataflow on reaching definitions + decision tables"),
 "C27": dict(
   decided={
+    "C27.e": "_tx_model_params is assigned only inside the two kwargs_callback functions (a cached model keeps the parameters of the load that built it)",
     "C27.a": "every public load entry checks the parameters before any model is loaded",
     "C27.b": "every call of a loading API forwards model_params derived from the importing model / the caller's parameter",
     "C27.c": "_tx_model_params is set before the user callback and for every model",
